@@ -38,7 +38,14 @@ Qed.
 
 (* the emitting operations are the routines of Model/Scalars.v *)
 Lemma hop_is_routine v : is_temporal v = true ->
-  unm_str rt v = Ok (hop_out rt HStr (isoformat rt v)) /\ unm_bytes rt v = Ok (hop_out rt HBytes (isoformat rt v)).
+  unm_str rt v = Ok (emit rt HStr v (isoformat rt v)) /\ unm_bytes rt v = Ok (emit rt HBytes v (isoformat rt v)).
 Proof. intros H. split; [exact (temporal_to_str rt v H)|exact (temporal_to_bytes rt v H)]. Qed.
+
+(* ... also on the non-temporal scalars: unmarshal(str | bytes, v) writes str(v), whatever was written before *)
+Definition plain_scalar (v : val) : bool :=
+  match v with VNone | VBool _ | VInt _ | VFloat _ | VDec _ | VFrac _ | VUuid _ | VPath _ => true | _ => false end.
+Lemma scalar_is_routine v : plain_scalar v = true ->
+  unm_str rt v = Ok (emit rt HStr v (isoformat rt v)) /\ unm_bytes rt v = Ok (emit rt HBytes v (isoformat rt v)).
+Proof. destruct v; try discriminate; intros _; split; reflexivity. Qed.
 
 End Hist.
